@@ -79,7 +79,13 @@ def items(tier, seed):
     if tier != 'quick': triples += [(3, 2, 1), (0, 4, 0), (1, 3, 2), (4, 1, 0), (0, 2, 2), (2, 2, 2)]
     exps = [(0, 1), (1, 1), (0, 2), (2, 1), (1, 3), (0, 4), (1, 5), (0, -1)] + ([(3, 2), (2, 4)] if tier != 'quick' else [])
     its = []
-    for fam, grid in GRID.items():
+    grid_all = {k: list(v) for k, v in GRID.items()}
+    if tier != 'quick':
+        more = {'Bernoulli': [['3/4'], ['1/10']], 'DiscreteUniform': [['0', '5'], ['-3', '-1']], 'Normal': [['2', '1/4'], ['-3', '9']], 'Uniform': [['-3', '5'], ['1/2', '3/2']],
+                'Laplace': [['-1', '2'], ['2', '1/2']], 'DistExp': [['1/3'], ['1']], 'Gamma': [['4', '1'], ['1', '3']], 'Beta': [['3', '2'], ['1', '1'], ['2', '5', '2']],
+                'TruncNormal': [['1', '2', '0', '3'], ['0', '4', '-2', '-1']]}
+        for k, v in more.items(): grid_all[k] += v
+    for fam, grid in grid_all.items():
         for ps in grid:
             cases = [dict(powers={k: v for k, v in zip(('Id', 'Sin', 'Cos'), t) if v}) for t in triples]
             cases += [dict(powers={k: v for k, v in (('Id', a), ('Exp', c)) if v}) for a, c in exps]
